@@ -10,13 +10,14 @@ PROPS_FILES = ['Gin/Props/C15.lean']
 ANCHOR_FILES = ['config.py']
 RULE = ('2-3 registered probes and 2-3 unknown names; a text of 3-10 statements mixing bindings and blocks of known and '
         'unknown targets, references to known and unknown configurables inside applied bindings and inside macros, '
-        'imports of present and missing modules; parsed with skip_unknown in {False, True, list, tuple, set (of some of the '
+        'imports of present and missing modules, in a third of the cases an import of a module that registers a '
+        'configurable which the text names before and after that import; parsed with skip_unknown in {False, True, list, tuple, set (of some of the '
         'unknown names)}; then the store, a consuming call through a placeholder, finalize. The reduced text (unknown '
         'targets and missing imports deleted) is parsed in a fresh interpreter for comparison. non-trivial = at least one '
         'statement is skipped and one applied, or an unlisted unknown name is rejected; distinct = canonical case')
 TRUSTED_BASE = ['Lean 4.33 kernel', 'axioms ⊆ {propext, Classical.choice, Quot.sound}', 'JSON glue (Gin/Drv)',
                 'harness gen_stmts.py / gindom.py']
-ASSUMPTIONS = ['static registration ("known" = registered); dynamic registration is C19',
+ASSUMPTIONS = ['static registration ("known" = registered when the statement is reached; imported modules may register); dynamic registration is C19',
                'acyclic configurations: evaluated references point down the registration order, macros hold no evaluated '
                'reference to a known configurable and no macro (a cyclic configuration recurses until Python gives up)',
                'a skipped statement contains no reference to an unknown unlisted name (DESIGN §7 D20: the value is parsed before the skip decision)']
@@ -51,7 +52,52 @@ def gen_case(rng):
   b, red = S.Builder(), S.Builder()
   fails = False
   n = rng.randint(3, 10)
-  for _ in range(n):
+  # a module that registers a configurable when the text imports it: "known" is judged statement by statement
+  late = None
+  if rng.random() < 0.35:
+    late = dict(G.gen_late_register(rng, 90), cls=False)
+    for plist in (late['sig']['pos'], late['sig']['kwonly']):
+      for p in plist:
+        if p[1] is None:
+          p[1] = {'v': None}
+    late_pos = rng.randrange(n)
+    if sk == 'names' and rng.random() < 0.6:
+      skip['v'] = skip['v'] + [late['_selector']]
+  regmods = {}
+  for i in range(n):
+    if late is not None and i == late_pos and not fails:
+      lsel = late['_selector']
+      spelled = rng.choice([lsel, lsel.split('.')[-1]])
+      skippable = sk == 'all' or (sk == 'names' and spelled in skip['v'])
+      cons = rng.choice(regs)
+      ccls = [x for x, k in G.param_classes(cons).items() if k == 'valid']
+      lcls = [x for x, k in G.param_classes(late).items() if k == 'valid']
+      sc0 = '/'.join(rng.choice([[], ['a']]))
+      if ccls and (skippable or rng.random() < 0.1) and rng.random() < 0.8:
+        # a reference to the name before the module is imported: a placeholder, or (unlisted) the error under test
+        val = {'l': [1, {'rawref': [rng.choice([[], ['a']]), spelled, rng.random() < 0.5]}]}
+        arg0 = rng.choice(ccls)
+        S.add_binding(b, sc0, cons['_selector'], arg0, val)
+        if not skippable:
+          fails = True
+          break
+        S.add_binding(red, sc0, cons['_selector'], arg0, val)
+      if lcls and skippable and rng.random() < 0.6:
+        S.add_binding(b, sc0, spelled, rng.choice(lcls), 5)    # unknown as yet: skipped, absent from the reduced text
+      mod = 'ginverif_regmod_%d' % rng.randint(0, 3)
+      regmods[mod] = [late]
+      for bb in (b, red):
+        bb.add('import ' + mod, {'k': 'import', 'module': mod, 'found': True, 'regs': [late]})
+      if ccls and rng.random() < 0.85:
+        # the same name after the import: a real reference now, whatever was decided about it before
+        val = {'l': [2, {'rawref': [rng.choice([[], ['a']]), spelled, rng.random() < 0.5]}]}
+        arg1 = rng.choice(ccls)
+        S.add_binding(b, sc0, cons['_selector'], arg1, val)
+        S.add_binding(red, sc0, cons['_selector'], arg1, val)
+      if lcls and rng.random() < 0.7:
+        argl = rng.choice(lcls)
+        S.add_binding(b, sc0, spelled, argl, 7)
+        S.add_binding(red, sc0, spelled, argl, 7)
     r = rng.random()
     scope = '/'.join(rng.choice([[], ['a'], ['a', 'b']]))
     if r < 0.38:   # known target
@@ -96,7 +142,8 @@ def gen_case(rng):
         if sk == 'no' or (sk == 'names' and not skip['v']):
           fails = True
           break
-  ops = list(regs) + [{'op': 'parse', 'file': None, 'skip': skip, 'stmts': b.stmts, '_text': b.text(), '_files': {}},
+  ops = list(regs) + [{'op': 'parse', 'file': None, 'skip': skip, 'stmts': b.stmts, '_text': b.text(), '_files': {},
+                       '_regmods': regmods},
                       {'op': 'config'}, {'op': 'imports'}]
   # use of whatever was bound: consuming calls, then finalize
   for reg in regs[:2]:
@@ -107,7 +154,7 @@ def gen_case(rng):
     ops.append(call)
   ops += [{'op': 'finalize'}, {'op': 'locked'}]
   return {'dom': 'gin', 'ops': ops, '_reduced': red.text(), '_reduced_stmts': red.stmts, '_skip': skip,
-          '_expect_fail': fails, '_nregs': len(regs)}
+          '_expect_fail': fails, '_nregs': len(regs), '_regmods': regmods, '_late': late is not None}
 
 
 def _decycle(val, known, allowed, no_macros=False):
@@ -139,7 +186,8 @@ def run_impl(case):
   out = gindom.run_impl(case)
   regs = [o for o in case['ops'] if o['op'] == 'register']
   fresh = gindom.run_impl({'dom': 'gin', 'ops': regs + [
-      {'op': 'parse', 'file': None, 'skip': case['_skip'], 'stmts': [], '_text': case['_reduced'], '_files': {}},
+      {'op': 'parse', 'file': None, 'skip': case['_skip'], 'stmts': [], '_text': case['_reduced'], '_files': {},
+       '_regmods': case.get('_regmods')},
       {'op': 'config'}, {'op': 'imports'}]})
   out['fresh'] = fresh['out'][len(regs):]
   return out
